@@ -637,6 +637,13 @@ impl Compiler {
             } else if rule.capture_name.is_some() || (inner.is_parametric() && !rule.is_parametric)
             {
                 self.builder.join_props(&[inner], props)
+            } else if self.builder.has_param_expr(inner) {
+                // the body is a single reference with its own parameter expression,
+                // e.g. `a::_ : b::incr(_)`; the rule needs a node of its own, otherwise
+                // the parameter supplied by the caller would replace that expression
+                let r = self.builder.new_param_node(name, true);
+                self.builder.set_placeholder(r, inner);
+                r
             } else {
                 inner
             }
